@@ -18,7 +18,6 @@
 #include "mem/forward.h"
 #include "u_adtB_hist.h"
 #include <cstdarg>
-#include <map>
 #include <memory>
 #include "mgr/Registration.h"
 #include "SquidConfig.h"
@@ -48,7 +47,7 @@ int main() {
     UH::Install();
     Mem::Init();
     std::unique_ptr<mem_hdr> m;
-    std::map<long long, long> owner;   // offset -> id of the latest write that stored it (driver's mirror for the projection)
+    std::vector<long> owner;   // offset -> id of the latest write that stored it, 0 = none (driver's mirror for the projection)
     long nextId = 0;
     auto &h = UH::TheHist();
     std::string line;
@@ -71,6 +70,7 @@ int main() {
             bool ret = false;
             if (!overlap) {
                 std::unique_ptr<char[]> buf(new char[len ? len : 1]);
+                if (owner.size() < size_t(off + len)) owner.resize(size_t(off + len), 0);
                 for (long long i = 0; i < len; ++i) { buf[i] = char(ByteOf(id, off + i)); owner[off + i] = id; }
                 ret = m->write(StoreIOBuffer(size_t(len), off, buf.get()));
             }
@@ -91,8 +91,8 @@ int main() {
                 for (long long i = 0; i <= ret && i <= len; ++i) {
                     long tag = -2;
                     if (i < ret && i < len) {
-                        const auto o = owner.find(off + i);
-                        tag = (o != owner.end() && (unsigned char)buf[i] == ByteOf(o->second, off + i)) ? o->second : -1;
+                        const long o = size_t(off + i) < owner.size() ? owner[off + i] : 0;
+                        tag = (o && (unsigned char)buf[i] == ByteOf(o, off + i)) ? o : -1;
                     }
                     if (tag != cur) {
                         if (cur != -2) { if (runs.size() > 1) runs += ','; runs += "[" + std::to_string(cur) + "," + std::to_string(from) + "," + std::to_string(off + i) + "]"; }
